@@ -8,7 +8,9 @@ run (proved memory safe and terminating for all inputs, Props/C08.lean
 debug trace on every run) — with the semantic actions of the value-expression
 sub-grammar, recognised by their text in grammar.go, building the same AST type.
 
-NOT proved: that the two parsers are equal on all token lists (`LRAgrees`; the
+NOT proved: that the two parsers are equal on every token list THE LEXER CAN
+PRODUCE (`LRAgrees`, quantified over the outputs of `lexAll`; on arbitrary lists
+of token values it is false, `agreement_needs_lexable_tokens`; the
 standard LR-correctness argument for this grammar was out of reach).  PROVED: the
 instances for scalar expressions and empty collections (`lr_agrees_on_scalars`,
 `format_then_goyacc_parse_scalar`, unconditional).  It is
@@ -29,8 +31,17 @@ namespace Props.C09
 open Martian.FormatExp Martian.LexerLR Martian.FormatCall Martian.FormatCall2
 
 /-- the goyacc parser model and the recursive-descent reader return the same
-result on every token list -/
-def LRAgrees : Prop := ∀ ts : List Tok, parseLR ts = parseToks ts
+result on every token list that x-c09's tokenizer `lexAll` produces from some
+source text.  (Restricted to lexer outputs: the token TYPE has values no source
+yields — `.reserved "true"`, `.punct 0` — on which the two functions differ,
+see `agreement_needs_lexable_tokens`.)
+What the per-run checks establish about it: `C08.lrcmp` compares the two on
+`lexAll src` for ≥ 12 000 generated and mutated sources `src` per quick run —
+instances of exactly this statement; `C08.lrexh` compares them on every sequence
+of length ≤ 4 (thorough ≤ 5) over 18 tokens each of which the lexer produces
+(one per token kind), i.e. on the lexer outputs of the sources obtained by
+joining these tokens with blanks. -/
+def LRAgrees : Prop := ∀ (src : List UInt8) (ts : List Tok), lexAll src = some ts → parseLR ts = parseToks ts
 
 /- Full statement (the goal; not proved):
      theorem lr_agrees : LRAgrees -/
@@ -39,9 +50,9 @@ def LRAgrees : Prop := ∀ ts : List Tok, parseLR ts = parseToks ts
 theorem goyacc_parse_eq_reader_partial (h : LRAgrees) (src : List UInt8) :
     parseValExpLR src = parseValExp src := by
   unfold parseValExpLR parseValExp
-  cases lexAll src with
+  cases hl : lexAll src with
   | none => rfl
-  | some ts => exact h ts
+  | some ts => exact h src ts hl
 
 /-- **format, then the goyacc parser**: modulo `LRAgrees`, the real LR algorithm
 with the real tables reads a printed well-formed value expression back as the
@@ -96,13 +107,31 @@ theorem format_then_goyacc_parse_scalar (e : Exp) (hw : wf e = true) (hs : isSca
 example : isScalar (.int (-5)) = true ∧ isScalar (.str [0x61]) = true ∧ isScalar (.arr []) = true ∧
     isScalar (.arr [.int 1]) = false := by decide
 
+/-- Non-vacuity of `LRAgrees`: its instances for the printed scalar expressions
+and empty collections are PROVED — the source `fmt [] e` lexes to `toks e`, and
+on that token list the two parsers agree. -/
+theorem lr_agrees_instances_proved (e : Exp) (hw : wf e = true) (hs : isScalar e = true) :
+    lexAll (fmt [] e) = some (toks e) ∧ parseLR (toks e) = parseToks (toks e) :=
+  ⟨lexAll_fmt_top e hw, lr_agrees_scalar e hs⟩
+
+/-- Why the hypothesis is restricted to lexer outputs: on token VALUES that no
+source text yields the two functions differ — the reader takes the word of a
+`reserved` token or the byte of a `punct` token at face value, the goyacc model
+translates them to scanner ids first (`.reserved "true"` becomes the TRUE token;
+`.punct 0` becomes the end-of-input id).  (Kernel-evaluated.) -/
+theorem agreement_needs_lexable_tokens :
+    optExpEq (parseLR [.reserved [0x74, 0x72, 0x75, 0x65]]) (parseToks [.reserved [0x74, 0x72, 0x75, 0x65]]) = false ∧
+    optExpEq (parseLR [.int [0x31], .punct 0]) (parseToks [.int [0x31], .punct 0]) = false := by decide +kernel
+
 /-! ## call statements (`file: call_stm`) -/
 
 /-- the goyacc parser model and x-c09's reader of a call statement return the
-same result on every token list (NOT proved; checked per run on ≥ 6000 generated
-call statements and token-level mutants, `C08.lrcmpcall`) -/
+same result on every token list `lexAll` produces from some source text (NOT
+proved; checked per run on `lexAll src` for ≥ 6000 generated call statements and
+token-level mutants `src`, `C08.lrcmpcall`) -/
 def LRCallAgrees : Prop :=
-  ∀ ts : List Tok, parseLRCall ts = (match pCall2 ts with | some (c, []) => some c | _ => none)
+  ∀ (src : List UInt8) (ts : List Tok), lexAll src = some ts →
+    parseLRCall ts = (match pCall2 ts with | some (c, []) => some c | _ => none)
 
 /-- `ParseSourceBytes` on a file holding one call statement, through the goyacc model -/
 def parseCallLR (src : List UInt8) : Option Call2 := (lexAll src).bind parseLRCall
@@ -110,9 +139,9 @@ def parseCallLR (src : List UInt8) : Option Call2 := (lexAll src).bind parseLRCa
 theorem goyacc_parse_call_eq_reader_partial (h : LRCallAgrees) (src : List UInt8) :
     parseCallLR src = parseCall2 src := by
   unfold parseCallLR parseCall2
-  cases lexAll src with
+  cases hl : lexAll src with
   | none => rfl
-  | some ts => simp only [Option.bind_some]; exact h ts
+  | some ts => simp only [Option.bind_some]; exact h src ts hl
 
 /-- **format a call statement, then the goyacc parser**: modulo `LRCallAgrees`, the
 real LR algorithm with the real tables and the real actions reads a printed
